@@ -362,6 +362,22 @@ class Env:
             exact[name] = ex
         return vals, exact
 
+    def _generic_inputs(self):
+        import random
+
+        rnd = random.Random(4242)
+        vals = {}
+        for name, a in self.decl.items():
+            arr = np.asarray(a, dtype=object)
+            out = []
+            for e in arr.ravel():
+                v = rnd.choice([0.5, 1.0, 1.5, 2.0, 2.5, 3.0, 0.75, 1.25])
+                if not e.nn and rnd.random() < 0.4:
+                    v = -v
+                out.append(v)
+            vals[name] = np.array(out, dtype=np.float64).reshape(arr.shape).tolist()
+        return vals
+
     def _confirm(self, name, phi, groups, model):
         """a sat answer is only a candidate: refine the root abstraction, look for a float-exact
         model, then replay on the real build"""
@@ -398,12 +414,19 @@ class Env:
                 candidates.append(m3)
                 break
         candidates.append(model)
-        for m in candidates[:2]:
+        candidates = candidates[:2]
+        # a third, generic candidate: the obligation may fail for (almost) every input while the solver's model is degenerate for the
+        # real kernels (singular systems, ties); any input on which the real run fails the obligation is a genuine counterexample
+        candidates.append("generic")
+        for m in candidates:
             if self._nreplays >= 4 * self.max_replays:
                 info["note"] = "replay budget exhausted"
                 return "inconclusive", info
             self._nreplays += 1
-            vals, exact = self._model_inputs(m)
+            if isinstance(m, str):
+                vals, exact = self._generic_inputs(), None
+            else:
+                vals, exact = self._model_inputs(m)
             path = write_replay(self.pid, self.cfg_key, name, vals, exact)
             ok, out = run_replay(self.pid, path)
             if ok:
